@@ -224,15 +224,15 @@ def coq_case(c, res):
     cid = c["id"]
     return ("Definition gs_%d : list group := [%s].\nDefinition impl_%d : list (list out) := [%s].\n"
             "Eval vm_compute in (%d%%Z, report %d gs_%d impl_%d %s).\n"
-            % (cid, ";\n  ".join(gs), cid, ";\n  ".join(impl), 777000 + cid, N, cid, cid, owned))
+            % (cid, ";\n  ".join(gs), cid, ";\n  ".join(impl), 7000000 + cid, N, cid, cid, owned))
 
 
 def parse_reports(out):
     """-> {cid: (flags[6], bitsA, bitsB)}"""
     res = {}
     txt = out.replace("\n", " ")
-    for m in re.finditer(r"=\s*\((777\d+)%Z,\s*\((\[[^()]*?\]),\s*(\[[^()]*?\]),\s*(\[[^()]*?\])\)\)", txt):
-        cid = int(m.group(1)) - 777000
+    for m in re.finditer(r"=\s*\((7\d{6})%Z,\s*\((\[[^()]*?\]),\s*(\[[^()]*?\]),\s*(\[[^()]*?\])\)\)", txt):
+        cid = int(m.group(1)) - 7000000
 
         def lit(s):
             return json.loads(s.replace(";", ","))
@@ -462,7 +462,7 @@ def run_merge(ctx, merges, results):
         cmp_rows = " && ".join("rows_match %s (rows_of_tag %d (remap (list nat) list_eqb %s ms_%d [])) [%s]" % (
             "true" if m["unique"] else "false", names.index(t), "true" if m["mergePoints"] else "false", m["id"],
             "; ".join(L(row) for row in rows)) for t, rows in r["groups"].items()) or "true"
-        body.append("Definition ms_%d : list (mesh (list nat)) := [%s].\nEval vm_compute in (888%03d%%Z, [b2n (all2 list_eqb (new_coords (list nat) list_eqb %s ms_%d) [%s]); b2n (all2 list_eqb (mapping (list nat) list_eqb %s ms_%d []) [%s]); b2n (%s)]).\n"
+        body.append("Definition ms_%d : list (mesh (list nat)) := [%s].\nEval vm_compute in (8%06d%%Z, [b2n (all2 list_eqb (new_coords (list nat) list_eqb %s ms_%d) [%s]); b2n (all2 list_eqb (mapping (list nat) list_eqb %s ms_%d []) [%s]); b2n (%s)]).\n"
                     % (m["id"], ";\n ".join(ms), m["id"], "true" if m["mergePoints"] else "false", m["id"], "; ".join(L(p) for p in r["coords"]),
                        "true" if m["mergePoints"] else "false", m["id"], "; ".join(L(mp) for mp in r["mapping"]), cmp_rows))
         ok_ids.append(m["id"])
@@ -474,7 +474,7 @@ def run_merge(ctx, merges, results):
         ctx.violation("corr:merge-model-eval", "the generated merge cases do not evaluate", {"log": o[-3000:]}, found_input=False)
         return
     txt = o.replace("\n", " ")
-    got = {int(m.group(1)) - 888000: json.loads(m.group(2).replace(";", ",")) for m in re.finditer(r"=\s*\((888\d+)%Z,\s*(\[[^\]]*\])\)", txt)}
+    got = {int(m.group(1)) - 8000000: json.loads(m.group(2).replace(";", ",")) for m in re.finditer(r"=\s*\((8\d{6})%Z,\s*(\[[^\]]*\])\)", txt)}
     bad = []
     for m in merges:
         if m["id"] not in ok_ids:
